@@ -485,17 +485,73 @@ pub fn c01(rep: &mut Report) {
     finish_sched(rep);
 }
 
+/// C11: the real binary with the source piped into stdin (a separate call site of the CLI writer),
+/// archives judged by the independent decoder.
+fn stdin_leg(rep: &mut Report) {
+    let bita = std::env::var("VERIF_BITA").unwrap_or_else(|_| "/verif/build/bita/release/bita".into());
+    let mut cases: Vec<Case> = vec![];
+    let srcs: Vec<Vec<u8>> = vec![b"AAAABBBBAAAACCCCDD".to_vec(), (0..300u32).map(|i| (i * 31 % 251) as u8).collect(), vec![]];
+    for (i, cfg) in [Cfg::fixed(4), Cfg::fixed(64), Cfg::new(Algo::Roll, 4, 4, 12, 2), Cfg::new(Algo::Buz, 4, 5, 32, 3)].iter().enumerate() {
+        for (j, (hl, buffers)) in [(64usize, 2usize), (24, 6), (4, 2), (8, 64), (31, 1)].iter().enumerate() {
+            for (k, src) in srcs.iter().enumerate() {
+                let comp = [Comp::None, Comp::Brotli(5), Comp::Zstd(3)][(i + j + k) % 3].clone();
+                cases.push(Case { cfg: *cfg, comp, hash_len: *hl, buffers: *buffers, source: src.clone() });
+            }
+        }
+    }
+    let cases_ref = &cases;
+    let nshards = threads();
+    let a = par_shards(nshards, threads(), |sh| {
+        let mut agg = Agg::default();
+        let dir = scratch_dir("c11stdin");
+        for (ci, case) in cases_ref.iter().enumerate() {
+            if ci % nshards != sh || !cli_expressible(&case.cfg) {
+                continue;
+            }
+            let arc = dir.path().join(format!("a{ci}.cba"));
+            let mut args: Vec<String> = vec!["compress".into()];
+            args.extend(cfg_cli_args(&case.cfg));
+            args.extend(case.comp.cli());
+            args.extend(["--hash-length".into(), case.hash_len.to_string(), "--buffered-chunks".into(), case.buffers.to_string(), arc.to_str().unwrap().into()]);
+            let mut child = match std::process::Command::new(&bita).args(&args).stdin(std::process::Stdio::piped()).stdout(std::process::Stdio::null()).stderr(std::process::Stdio::null()).env("RUST_BACKTRACE", "0").spawn() {
+                Ok(c) => c,
+                Err(e) => machinery(format!("cannot run {bita}: {e}")),
+            };
+            {
+                use std::io::Write;
+                let mut si = child.stdin.take().unwrap();
+                let _ = si.write_all(&case.source);
+            }
+            let st = child.wait().unwrap();
+            agg.add("stdin_compress_runs", 1);
+            let detail = |extra: Value| json!({"writer": "cli-binary-stdin", "cfg": case.cfg.json(), "comp": format!("{:?}", case.comp), "hash_len": case.hash_len, "buffers": case.buffers, "source": hex(&case.source), "extra": extra});
+            if !st.success() {
+                agg.viol("valid-compress-failed", || detail(json!(format!("{st}"))));
+                continue;
+            }
+            let bytes = std::fs::read(&arc).unwrap_or_default();
+            if let Some((class, d)) = judge_archive(&bytes, &case.source, &case.cfg, &case.comp, case.hash_len, &[], Judge::Format) {
+                agg.viol(&class, || detail(d));
+            }
+            agg.distinct("archives", fnv(&bytes));
+        }
+        agg
+    });
+    rep.agg.merge(a);
+}
+
 pub fn c11(rep: &mut Report) {
     let t0 = std::time::Instant::now();
     sweep(rep, Judge::Format);
     rep.agg.notes.push(format!("sweep wall {:.1}s", t0.elapsed().as_secs_f64()));
     metadata_leg(rep);
+    stdin_leg(rep);
     let results = run_sched_legs(rep, Judge::Format, &|l| l.name.contains("compress"));
     validate_r1(rep, &results);
-    let ev = rep.agg.get("library_roundtrips") + rep.agg.get("cli_roundtrips") + rep.agg.get("schedules") + rep.agg.get("metadata_cases");
+    let ev = rep.agg.get("library_roundtrips") + rep.agg.get("cli_roundtrips") + rep.agg.get("schedules") + rep.agg.get("metadata_cases") + rep.agg.get("stdin_compress_runs");
     rep.set("evaluations", json!(ev));
     rep.set("distinct_nontrivial", json!(rep.agg.distinct_count("archives") + rep.agg.distinct_count("schedule_outcomes")));
-    rep.set("rule", json!("every archive of the C01 sweep and of every explored compress schedule, by both writers, is decoded by the independent codec and checked against the conformance checklist (magic, sizes, offsets, checksums, descriptor uniqueness/order/back-to-back placement, chunk decoding, rebuild order, recorded parameters == requested, boundaries == reference chunking); metadata maps from a fixed adversarial set; bitar::Archive accessors compared with the independent decoder"));
+    rep.set("rule", json!("every archive of the C01 sweep and of every explored compress schedule, by both writers, is decoded by the independent codec and checked against the conformance checklist (magic, sizes, offsets, checksums, descriptor uniqueness/order/back-to-back placement, chunk decoding, rebuild order, recorded parameters == requested, boundaries == reference chunking); metadata maps from a fixed adversarial set; the real binary with the source piped into stdin (4 chunkers x 5 (hash length, buffered-chunks) pairs x 3 sources); bitar::Archive accessors compared with the independent decoder"));
     finish_sched(rep);
 }
 
